@@ -92,7 +92,7 @@ ANCHORS = [
 SHARD_TIMEOUT = {"quick": 1500, "thorough": 7200}  # watchdog only (inconclusive when it fires); sized for a heavily shared host
 
 REQ_METHODS = ["GET", "POST", "PUT", "HEAD", "DELETE", "PROPFIND"]
-HOSTS = [None, "a.com", "x.a.com", "b.org"]
+HOSTS = [None, "a.com", "x.a.com", "b.org", "x.a.com.evil.net", "x.a.com:8080", "a.community", "y.x.a.com"]
 DOMAINS = ["a.com", "*.a.com", "*", "b.org", "*.com"]
 
 # --------------------------------------------------------------------------------------------------
